@@ -5,6 +5,8 @@
 //!   "uri": {"<id>": "triple"|"single"|"abs"|"rel"}, "ml_uri": form for manifest-list / manifest paths,
 //!   "hint": null | {"v": N, "text": "N" | "vN"}   (HadoopCatalog layout: vN.metadata.json + version-hint.text),
 //!   "ms": [last-updated-ms per metadata file], "names": [file-name rank per metadata file], "snapshot": null | snapshot id,
+//!   "ml_counts": bool — manifest-list records carry the spec's v2 fields (sequence numbers, added/existing/deleted_files_count, *_rows_count,
+//!   consistent with the manifest's entries); false = v1-style list (manifest_path, manifest_length, partition_spec_id, added_snapshot_id only),
 //!   "inject": null | {"kind": "delete"|"delete_dead"|"format"|"format_lower"|"remote"|"dup", "snap": k}, "v1": bool, "deflate": bool}
 //! Derived (shipped for the model): "metas": [{"name","version","ms","current","snaps":[{"id","ts","manifests":[[{"st","ct","pq","uri","file"}]]}]}]
 //! Impl: {"ok":{"snapshot":id,"files":[ids],"n":rows,"s":sum}} | {"err": kind}
@@ -59,9 +61,19 @@ fn avro_write(path: &Path, schema_json: &str, recs: Vec<Av>, deflate: bool) -> R
     Ok(())
 }
 
+/// v2 manifest list (`manifest_file`, Iceberg spec field names; the counts are required in v2)
 const ML_SCHEMA: &str = r#"{"type":"record","name":"manifest_file","fields":[
  {"name":"manifest_path","type":"string"},{"name":"manifest_length","type":"long"},{"name":"partition_spec_id","type":"int"},
- {"name":"content","type":"int"},{"name":"added_snapshot_id","type":["null","long"]}]}"#;
+ {"name":"content","type":"int"},{"name":"sequence_number","type":"long"},{"name":"min_sequence_number","type":"long"},
+ {"name":"added_snapshot_id","type":"long"},
+ {"name":"added_files_count","type":"int"},{"name":"existing_files_count","type":"int"},{"name":"deleted_files_count","type":"int"},
+ {"name":"added_rows_count","type":"long"},{"name":"existing_rows_count","type":"long"},{"name":"deleted_rows_count","type":"long"}]}"#;
+/// v1-style manifest list: no counts
+const ML_SCHEMA_V1: &str = r#"{"type":"record","name":"manifest_file","fields":[
+ {"name":"manifest_path","type":"string"},{"name":"manifest_length","type":"long"},{"name":"partition_spec_id","type":"int"},
+ {"name":"added_snapshot_id","type":["null","long"]}]}"#;
+
+fn rows_of_file(id: u64) -> i64 { if id >= 99990 { 1 } else { 1 + (id % 3) as i64 } }
 const M_SCHEMA_V2: &str = r#"{"type":"record","name":"manifest_entry","fields":[
  {"name":"status","type":"int"},{"name":"snapshot_id","type":["null","long"]},
  {"name":"data_file","type":{"type":"record","name":"r2","fields":[
@@ -74,9 +86,9 @@ const M_SCHEMA_V1: &str = r#"{"type":"record","name":"manifest_entry","fields":[
 fn write_manifest(path: &Path, m: &Manifest, v1: bool, deflate: bool) -> Result<(), String> {
     let recs = m.iter().map(|e| {
         let df = if v1 {
-            Av::Record(vec![("file_path".into(), Av::String(e.uri.clone())), ("file_format".into(), Av::Union(1, Box::new(Av::String(e.fmt.clone())))), ("record_count".into(), Av::Long(1))])
+            Av::Record(vec![("file_path".into(), Av::String(e.uri.clone())), ("file_format".into(), Av::Union(1, Box::new(Av::String(e.fmt.clone())))), ("record_count".into(), Av::Long(rows_of_file(e.file)))])
         } else {
-            Av::Record(vec![("content".into(), Av::Int(e.ct)), ("file_path".into(), Av::String(e.uri.clone())), ("file_format".into(), Av::String(e.fmt.clone())), ("record_count".into(), Av::Long(1))])
+            Av::Record(vec![("content".into(), Av::Int(e.ct)), ("file_path".into(), Av::String(e.uri.clone())), ("file_format".into(), Av::String(e.fmt.clone())), ("record_count".into(), Av::Long(rows_of_file(e.file)))])
         };
         Av::Record(vec![("status".into(), Av::Int(e.st)), ("snapshot_id".into(), Av::Union(1, Box::new(Av::Long(7)))), ("data_file".into(), df)])
     }).collect();
@@ -101,6 +113,7 @@ pub fn run_case(c: &mut Value, uniq: &str, rt: &tokio::runtime::Runtime) -> Valu
     let v1 = c["v1"].as_bool().unwrap_or(false);
     let deflate = c["deflate"].as_bool().unwrap_or(false);
     let ml_form = c["ml_uri"].as_str().unwrap_or("triple").to_string();
+    let ml_counts = c["ml_counts"].as_bool().unwrap_or(true);
     let form_of = |id: u64| -> String { c["uri"][id.to_string()].as_str().unwrap_or("triple").to_string() };
     let ops = c["ops"].as_array().cloned().unwrap_or_default();
     let inject = c["inject"].clone();
@@ -155,11 +168,24 @@ pub fn run_case(c: &mut Value, uniq: &str, rt: &tokio::runtime::Runtime) -> Valu
                     manifest_no += 1;
                     let rel = format!("metadata/m{:04}.avro", manifest_no);
                     write_manifest(&dir.join(&rel), m, v1, deflate)?;
-                    recs.push(Av::Record(vec![("manifest_path".into(), Av::String(uri_of(&ml_form, &dir, &rel))), ("manifest_length".into(), Av::Long(1)),
-                        ("partition_spec_id".into(), Av::Int(0)), ("content".into(), Av::Int(0)), ("added_snapshot_id".into(), Av::Union(1, Box::new(Av::Long(sid as i64))))]));
+                    let mlen = std::fs::metadata(dir.join(&rel)).map(|x| x.len() as i64).unwrap_or(1);
+                    if ml_counts {
+                        let cnt = |st: i32| m.iter().filter(|e| e.st == st).count() as i32;
+                        let rws = |st: i32| m.iter().filter(|e| e.st == st).map(|e| rows_of_file(e.file)).sum::<i64>();
+                        let has_deletes = m.iter().any(|e| e.ct != 0);
+                        recs.push(Av::Record(vec![("manifest_path".into(), Av::String(uri_of(&ml_form, &dir, &rel))), ("manifest_length".into(), Av::Long(mlen)),
+                            ("partition_spec_id".into(), Av::Int(0)), ("content".into(), Av::Int(if has_deletes { 1 } else { 0 })),
+                            ("sequence_number".into(), Av::Long(i as i64 + 1)), ("min_sequence_number".into(), Av::Long(1)),
+                            ("added_snapshot_id".into(), Av::Long(sid as i64)),
+                            ("added_files_count".into(), Av::Int(cnt(1))), ("existing_files_count".into(), Av::Int(cnt(0))), ("deleted_files_count".into(), Av::Int(cnt(2))),
+                            ("added_rows_count".into(), Av::Long(rws(1))), ("existing_rows_count".into(), Av::Long(rws(0))), ("deleted_rows_count".into(), Av::Long(rws(2)))]));
+                    } else {
+                        recs.push(Av::Record(vec![("manifest_path".into(), Av::String(uri_of(&ml_form, &dir, &rel))), ("manifest_length".into(), Av::Long(mlen)),
+                            ("partition_spec_id".into(), Av::Int(0)), ("added_snapshot_id".into(), Av::Union(1, Box::new(Av::Long(sid as i64))))]));
+                    }
                 }
                 let ml_rel = format!("metadata/snap-{}.avro", sid);
-                avro_write(&dir.join(&ml_rel), ML_SCHEMA, recs, deflate)?;
+                avro_write(&dir.join(&ml_rel), if ml_counts { ML_SCHEMA } else { ML_SCHEMA_V1 }, recs, deflate)?;
                 snaps.push((sid, 5000 + i as u64, this));
             }
             // one metadata file per op
@@ -224,7 +250,24 @@ pub fn gen_case(r: &mut Rng) -> Value {
     let mut next_id = 1u64;
     let mut live: Vec<u64> = vec![];
     let mut snap_ops: Vec<usize> = vec![];
-    for i in 0..nops {
+    // 1/3 of the histories start with: append >= 2 files in ONE manifest, remove some but not all of them (the manifest is rewritten
+    // to EXISTING survivors + DELETED entries, no ADDED), append again
+    let forced = r.chance(1, 3);
+    if forced {
+        let k = 2 + r.below(3);
+        let fs: Vec<u64> = (0..k).map(|_| { let id = next_id + r.below(3); next_id = id + 1; id }).collect();
+        live.extend(fs.iter().copied());
+        ops.push(json!({"op": "append", "files": fs.clone()})); snap_ops.push(0);
+        let nrm = 1 + r.below(k - 1) as usize;
+        let rm: Vec<u64> = fs.iter().take(nrm).copied().collect();
+        live.retain(|f| !rm.contains(f));
+        ops.push(json!({"op": "remove", "files": rm})); snap_ops.push(1);
+        let id = next_id + r.below(3); next_id = id + 1;
+        live.push(id);
+        ops.push(json!({"op": "append", "files": [id]})); snap_ops.push(2);
+    }
+    let base = ops.len();
+    for i in base..base + nops {
         let x = r.below(10);
         if x < 5 || live.is_empty() && x < 8 {
             let k = 1 + r.below(4);
@@ -263,7 +306,7 @@ pub fn gen_case(r: &mut Rng) -> Value {
         json!({"kind": *r.pick(kinds), "snap": *r.pick(&snap_ops)})
     } else { Value::Null };
     json!({"ops": ops, "uri": uri, "ml_uri": *r.pick(&["triple", "single", "abs", "rel"]), "hint": hint, "ms": ms, "names": names,
-           "snapshot": snapshot, "inject": inject, "v1": v1, "deflate": r.chance(1, 2)})
+           "snapshot": snapshot, "inject": inject, "v1": v1, "deflate": r.chance(1, 2), "ml_counts": !r.chance(1, 6), "forced_remove_append": forced})
 }
 
 pub fn main(o: &Opts) {
